@@ -532,6 +532,10 @@ def finish(prop, pid, tier, seed, agg, t0, write_evidence=True, replay_mode=Fals
             "saved_replays_run": int(getattr(agg, "n_replay", 0)),
             "harness_errors": len(agg.harness_errors),
         }
+        if prop.fuzz(tier):
+            cov["coverage_guided"] = {"tool": "atheris (libFuzzer) mutating the byte stream behind the Hypothesis strategy",
+                                      "executions_included_in_evaluations": int(agg.classes.get("coverage_guided_execs", 0)),
+                                      "shards_not_run": list(getattr(agg, "fuzz_notes", []))[:4]}
         ev = {
             "property_id": pid,
             "tier": tier,
